@@ -46,7 +46,9 @@ type c05tail struct {
 type c05case struct {
 	ID      int         `json:"id"`
 	Via     string      `json:"via"`
-	Rbuf    uint32      `json:"rbuf"`
+	Rbuf    uint32      `json:"rbuf"`      // configured ReceiveBufSize of the receiving side
+	PeerSnd uint32      `json:"peer_send"` // send buffer size the peer announces in its HEL / ACK (listener, dialer)
+	RbufEff uint32      `json:"rbuf_conn"` // Conn.ReceiveBufSize() after the handshake (observed)
 	Stream  string      `json:"stream"` // hex
 	Segs    []int       `json:"segs"`   // write sizes (sum = len(stream))
 	SegKind string      `json:"segkind"`
@@ -108,7 +110,10 @@ func receiveOnce(c *uacp.Conn) (res c05result) {
 }
 
 // pair returns the receiving uacp.Conn and the raw writer end.
-func pair(via string, rbuf uint32) (*uacp.Conn, *net.TCPConn, error) {
+func pair(via string, rbuf, peerSend uint32) (*uacp.Conn, *net.TCPConn, error) {
+	if peerSend == 0 {
+		peerSend = 65535
+	}
 	ctx, cancel := context.WithTimeout(context.Background(), 5*time.Second)
 	defer cancel()
 	switch via {
@@ -147,7 +152,7 @@ func pair(via string, rbuf uint32) (*uacp.Conn, *net.TCPConn, error) {
 		// a minimal Hello: version, rcv, snd, maxmsg, maxchunks, null endpoint url (32 bytes)
 		hel := make([]byte, 24)
 		binary.LittleEndian.PutUint32(hel[4:], 65535)
-		binary.LittleEndian.PutUint32(hel[8:], 65535)
+		binary.LittleEndian.PutUint32(hel[8:], peerSend)
 		binary.LittleEndian.PutUint32(hel[20:], 0xffffffff)
 		if _, err := w.Write(mkFrame("HEL", 'F', hel)); err != nil {
 			return nil, nil, err
@@ -194,7 +199,7 @@ func pair(via string, rbuf uint32) (*uacp.Conn, *net.TCPConn, error) {
 			w.SetReadDeadline(time.Time{})
 			ack := make([]byte, 20)
 			binary.LittleEndian.PutUint32(ack[4:], 65535)
-			binary.LittleEndian.PutUint32(ack[8:], 65535)
+			binary.LittleEndian.PutUint32(ack[8:], peerSend)
 			if _, err := w.Write(mkFrame("ACK", 'F', ack)); err != nil {
 				ch <- acc{nil, err}
 				return
@@ -207,9 +212,6 @@ func pair(via string, rbuf uint32) (*uacp.Conn, *net.TCPConn, error) {
 		if err == nil {
 			err = a.err
 		}
-		if err == nil && c.ReceiveBufSize() != rbuf {
-			err = fmt.Errorf("client does not use the receive buffer size it was configured with: %d != %d", c.ReceiveBufSize(), rbuf)
-		}
 		return c, a.w, err
 	}
 	return nil, nil, fmt.Errorf("unknown via %q", via)
@@ -221,11 +223,12 @@ func runC05(cs *c05case) {
 		cs.Setup = err.Error()
 		return
 	}
-	c, w, err := pair(cs.Via, cs.Rbuf)
+	c, w, err := pair(cs.Via, cs.Rbuf, cs.PeerSnd)
 	if err != nil {
 		cs.Setup = err.Error()
 		return
 	}
+	cs.RbufEff = c.ReceiveBufSize()
 	defer c.Close()
 	defer w.Close()
 	w.SetNoDelay(true)
@@ -439,6 +442,23 @@ func genC05(r *rng.R, id int) *c05case {
 		}
 	}
 	cs.Rbuf = uint32(rb)
+	// asymmetric configurations: the peer announces a send buffer size different from our receive buffer size.
+	// eff = the receive limit the connection must end up with (server: min(own, peer's send size); client: own)
+	eff := rb
+	if cs.Via != "newconn" {
+		cs.PeerSnd = 65535
+		if id%4 == 1 {
+			cs.PeerSnd = uint32(r.Pick(8192, 8193, 9000, 16384, 100000))
+			cs.Rbuf = uint32(r.Pick(8192, 8200, 9000, 12000, 20000, 65535))
+			rb = int(cs.Rbuf)
+			eff = rb
+		}
+		if cs.Via == "listener" && int(cs.PeerSnd) < rb {
+			eff = int(cs.PeerSnd)
+		}
+	}
+	cfg := rb
+	rb = eff
 	nf := r.Pick(0, 1, 1, 2, 3, 4, 6)
 	var frames [][]byte
 	var stream []byte
@@ -470,6 +490,12 @@ func genC05(r *rng.R, id int) *c05case {
 			sz = uint32(rb + 1)
 		case 3:
 			sz = uint32(rb + r.Range(1, 100000))
+			if cfg != rb {
+				sz = uint32(r.Pick(cfg-1, cfg, cfg+1, int(cs.PeerSnd)+1))
+				if int(sz) <= rb {
+					sz = uint32(rb + 1)
+				}
+			}
 		case 4:
 			sz = 0xffffffff
 		default:
